@@ -281,7 +281,12 @@ def run_case(case: dict[str, Any]) -> dict[str, Any]:
                         continue
                     timeout = opts.get('cancellation_timeout')
                     backoff = opts.get('cancellation_backoff') or 0
-                    if timeout is None or fr.t < (t_mark or 0) + backoff + timeout - 1e-6:
+                    # the stages count from the moment the instance was first asked to stop, which can precede the deletion mark
+                    # (it was already stopping for a filter mismatch or a pause)
+                    rt0 = rets.get(c['seq'])
+                    flagged = rt0.get('flag_seen_at') if rt0 else None
+                    t_asked = min(t_mark or 0, flagged) if flagged is not None else (t_mark or 0)
+                    if timeout is None or fr.t < t_asked + backoff + timeout - 1e-6:
                         viol.append({'mech': 'released-while-daemon-running', 'msg': f"{uid}: finalizer released by request #{fr.idx} at t={fr.t} while daemon {c['h']} (started {c['t']}) had neither "
                                      f"exited nor reached abandonment (marked {t_mark}, backoff {backoff}, timeout {timeout})", 'witness': None})
                     else:
